@@ -328,6 +328,9 @@ def dry_runs():
         yield 'L2_fd_socket', dict(o0=4, o1=0, o2=1, o3=2, sock=sock)
 
 
+PROBES = ['lifecycle']      # representation probes (harness/probes.py) this harness depends on
+
+
 MANIFEST_ENTRY = {
     'level_text': 'Bounded symbolic verification of the real spawn lifecycle code (close, terminate, kill, isalive, '
                   'wait, send, read_nonblocking, __exit__) composed with the real ptyprocess close/terminate/isalive/'
